@@ -727,7 +727,27 @@ impl Decl {
 const ROOTS: &[&str] = &["a", "a", "a", "b", "b", "c", "std", "core", "r#try", "Z"];
 const NAMES: &[&str] = &["a", "b", "b", "c", "c", "d", "e", "B", "r#as", "f1"];
 const ALIASES: &[&str] = &["x", "y", "p", "r#q", "_", "X"];
-const VISES: &[&str] = &["", "", "", "", "", "pub", "pub", "pub(crate)", "pub(super)", "pub(in crate)", "pub(self)", "pub(in a::b)"];
+const VISES: &[&str] = &[
+    "", "", "", "", "", "", "pub", "pub", "pub(crate)", "pub(super)", "pub(in crate)", "pub(self)", "pub(in a::b)",
+    // restricted paths that are prefixes of one another
+    "pub(in a)", "pub(in a::b::c)", "pub(in crate::a)", "pub(in crate::a::b)", "pub(in super::a)", "pub(in self::a)",
+];
+
+/// a visibility whose path is a prefix or an extension of the path of `vis` (or any, for `pub` / private)
+fn related_vis(rng: &mut Rng, vis: &str) -> String {
+    let fam: &[&str] = if vis.contains("crate") {
+        &["pub(crate)", "pub(in crate)", "pub(in crate::a)", "pub(in crate::a::b)", "pub(in crate::b)"]
+    } else if vis.contains("super") {
+        &["pub(super)", "pub(in super)", "pub(in super::a)", "pub(in super::super)"]
+    } else if vis.contains("self") {
+        &["pub(self)", "pub(in self::a)", "pub(in self::a::b)"]
+    } else if vis.contains("(in a") {
+        &["pub(in a)", "pub(in a::b)", "pub(in a::b::c)", "pub(in a::c)"]
+    } else {
+        return rng.pick(VISES).to_string();
+    };
+    rng.pick(fam).to_string()
+}
 
 struct GenOpts {
     max_depth: usize,
@@ -868,11 +888,24 @@ fn gen_run(rng: &mut Rng, n: usize, g: &GenOpts) -> Vec<Decl> {
                 // same tree, other visibility or attributes
                 let mut d = rng.pick(&v).clone();
                 if rng.chance(1, 2) {
-                    d.vis = rng.pick(VISES).to_string();
+                    d.vis = related_vis(rng, &d.vis);
                 } else {
                     d.attrs = vec![format!("#[cfg(k{})]", k)];
                     d.inline_attr = false;
                 }
+                d
+            }
+            3 if !v.is_empty() => {
+                // another name of the same module under a visibility related to the earlier one
+                let mut d = rng.pick(&v).clone();
+                d.attrs = vec![];
+                d.tree.comment = None;
+                if let (GEnd::Plain(_), true) = (&d.tree.end, d.tree.path.len() >= 2) {
+                    let n = d.tree.path.len();
+                    d.tree.path[n - 1] = rng.pick(NAMES).to_string();
+                    d.tree.end = GEnd::Plain(None);
+                }
+                d.vis = related_vis(rng, &d.vis);
                 d
             }
             _ => gen_decl(rng, k, g),
@@ -1165,6 +1198,77 @@ fn part_trees(o: &mut Outcome, rng: &mut Rng, thorough: bool) {
     }
 }
 
+// ------------------------------------------------------------------ 1b. visibilities
+
+const VIS_UNIVERSE: &[&str] = &[
+    "", "pub", "pub(crate)", "pub(in crate)", "pub(self)", "pub(in self)", "pub(super)", "pub(in super)", "pub(in a)", "pub(in a::b)", "pub(in a::b::c)",
+    "pub(in a::c)", "pub(in b)", "pub(in b::a)", "pub(in crate::a)", "pub(in crate::a::b)", "pub(in crate::b)", "pub(in super::a)", "pub(in super::super)",
+    "pub(in super::super::a)", "pub(in self::a)", "pub(in self::a::b)", "pub(in ::a)", "pub(in ::a::b)", "pub(in r#fn)", "pub(in r#fn::a)",
+];
+
+/// the visibility as `is_same_visibility` sees it, in the driver's encoding
+fn vis_enc(text: &str) -> String {
+    match text {
+        "" => "I".into(),
+        "pub" => "P".into(),
+        t => {
+            let inner = &t[4..t.len() - 1];
+            let (short, path) = match inner.strip_prefix("in ") {
+                Some(p) => (0, p),
+                None => (1, inner),
+            };
+            let (path, root) = match path.strip_prefix("::") {
+                Some(p) => (p, true),
+                None => (path, false),
+            };
+            let mut names: Vec<String> = if root { vec![enc_str("")] } else { vec![] };
+            names.extend(path.split("::").map(enc_str));
+            format!("R{}:{}", short, names.join(","))
+        }
+    }
+}
+
+/// `is_same_visibility` and `UseTree::same_visibility` on every ordered pair of a visibility
+/// universe (paths that are prefixes of one another, shorthand and `in` forms, global paths,
+/// `pub`, private, no visibility at all) against the literal model.
+fn part_vis(o: &mut Outcome) {
+    let src: String = VIS_UNIVERSE.iter().enumerate().map(|(i, v)| format!("{}{}use x{};\n", v, if v.is_empty() { "" } else { " " }, i)).collect();
+    for edition in [rustfmt_nightly::Edition::Edition2015, rustfmt_nightly::Edition::Edition2021] {
+        let m = match std::panic::catch_unwind(|| hi::visibilities(&src, edition)) {
+            Ok(Ok(m)) => m,
+            e => {
+                o.direct_failures.push(json!({"sig": "c10:visibilities-hook", "what": format!("{:?}", e.map(|r| r.map(|_| ()))), "src": src}));
+                return;
+            }
+        };
+        let n = VIS_UNIVERSE.len();
+        let want: Vec<String> = VIS_UNIVERSE.iter().map(|v| vis_enc(v)).collect();
+        o.direct_evals += 1;
+        if m.items.iter().map(|i| i.enc.clone()).collect::<Vec<_>>() != want {
+            o.direct_failures.push(json!({"sig": "c10:vis-tie", "what": "the parser builds other visibilities than the text means", "src": src, "code": m.items.iter().map(|i| i.enc.clone()).collect::<Vec<_>>(), "meant": want}));
+            return;
+        }
+        let mut encs = want.clone();
+        encs.push("n".into());
+        for i in 0..n {
+            o.push("corr", "imp.viskey", format!("imp.viskey {}", encs[i]), format!("k{}", enc_str(&m.items[i].key)), format!("visibility `{}`", VIS_UNIVERSE[i]), true);
+        }
+        for i in 0..=n {
+            for j in 0..=n {
+                o.push("corr", "imp.samevis", format!("imp.samevis {} {}", encs[i], encs[j]), (m.tree_same[i][j] as u8).to_string(), format!("`{}` | `{}`", VIS_UNIVERSE.get(i).unwrap_or(&"(none)"), VIS_UNIVERSE.get(j).unwrap_or(&"(none)")), i != j);
+                o.count(&format!("vis:same_visibility {}", m.tree_same[i][j]));
+                if i < n && j < n {
+                    o.direct_evals += 1;
+                    if m.same[i][j] != m.tree_same[i][j] {
+                        o.direct_failures.push(json!({"sig": "c10:same-visibility-wrapper", "what": "UseTree::same_visibility differs from is_same_visibility on two present visibilities", "a": VIS_UNIVERSE[i], "b": VIS_UNIVERSE[j]}));
+                    }
+                }
+            }
+        }
+    }
+    o.count_n("vis:universe", VIS_UNIVERSE.len() as u64);
+}
+
 // ------------------------------------------------------------------ 2. parsed declarations
 
 #[derive(Clone, Debug)]
@@ -1361,6 +1465,10 @@ fn decl_universe() -> Vec<Decl> {
     v.push(with(Decl::of(p(&["a", "d"], None)), "pub(in crate)", &[]));
     v.push(with(Decl::of(p(&["a", "d"], None)), "pub(in a::b)", &[]));
     v.push(with(Decl::of(p(&["a", "d"], None)), "pub(super)", &[]));
+    v.push(with(Decl::of(p(&["a", "g"], None)), "pub(in a)", &[]));
+    v.push(with(Decl::of(p(&["a", "h"], None)), "pub(in a::b::c)", &[]));
+    v.push(with(Decl::of(p(&["a", "i"], None)), "pub(in crate::a)", &[]));
+    v.push(with(Decl::of(p(&["a", "j"], None)), "pub(in super::a)", &[]));
     v.push(with(Decl::of(p(&["a", "b"], None)), "", &["#[cfg(k1)]"]));
     v.push(with(Decl::of(p(&["a", "b"], None)), "", &["#[cfg(k2)]"]));
     v.push(with(Decl::of(list(&["a"], vec![p(&["b"], None), p(&["c"], None)])), "", &["/// doc", "#[cfg(k1)]"]));
@@ -1826,6 +1934,9 @@ const FIXED: &[&str] = &[
     "use a::{b::c, d::e};\nuse a::b;\nuse a::d;\nuse a::d::e::f;\n",
     "pub use a::b;\nuse a::c;\npub(crate) use a::d;\npub(in crate) use a::e;\npub use a::f;\n",
     "pub use a as x;\nuse a::b;\npub use a::c;\n",
+    "pub(crate) use crate::store::Index;\npub(in crate::engine) use crate::store::Segment;\npub(in crate::engine) use crate::store::Writer;\npub(in crate::engine::planner) use crate::store::Cursor;\npub(super) use crate::util::clamp;\npub(in super::x) use crate::util::retry;\nuse crate::util::sleep;\n",
+    "pub(in a) use a::b;\npub(in a::b) use a::c;\npub(in a::b::c) use a::d;\npub(self) use a::e;\npub(in self::f) use a::g;\npub(in a::b) use a::h;\n",
+    "pub(in crate::a::b) use x::y;\npub(in crate::a) use x::z;\npub(in crate) use x::w;\npub use x::v;\nuse x::u;\npub(in crate::a) use x::t::s;\n",
     "#[cfg(k1)]\nuse a::b;\nuse a::c;\n#[cfg(k1)]\nuse a::d;\nuse a::e;\n/// doc\nuse a::f;\n",
     "use a::b; // t1\nuse a::c;\nuse a::{d, /* n1 */ e};\nuse a::f;\n",
     "use self::a::b;\nuse self::a::c;\nuse super::a::b;\nuse crate::a::{b, c};\nuse crate::a::d as e;\nuse std::a;\nuse core::a::b;\nuse alloc::a;\n",
@@ -1973,6 +2084,9 @@ pub fn run(tier: &str, seed: u64, out: &Path) -> i32 {
     let (mut r1, mut r2, mut r3) = (rng.fork(), rng.fork(), rng.fork());
     if on("trees") {
         part_trees(&mut o, &mut r1, thorough);
+    }
+    if on("vis") {
+        part_vis(&mut o);
     }
     if on("source") {
         part_source(&mut o, &mut r2, thorough);
